@@ -157,8 +157,9 @@ Scalars == {2, -3}
 AddScalars == {0, 2, -3}
 ProdScalars == {0, 1, 2, -3}
 CoefValues == {-2, 0, 1, 3}
-CoefPairs == IF OpsLevel = "all" THEN CoefValues \X CoefValues
-             ELSE {<<1, 1>>, <<2, -3>>, <<3, 0>>, <<0, -2>>, <<1, 0>>, <<0, 1>>, <<0, 0>>, <<-2, 1>>}
+CoefPairs == CASE OpsLevel = "all" -> CoefValues \X CoefValues
+               [] OpsLevel = "std" -> {<<1, 1>>, <<2, -3>>, <<3, 0>>, <<0, -2>>, <<1, 0>>, <<0, 1>>, <<0, 0>>, <<-2, 1>>}
+               [] OTHER -> {<<2, -3>>, <<3, 0>>, <<0, -2>>}
 SetVal == -7
 \* index lists used by the sub-sampling operations for a dimension n (<<>> = all)
 IdxLists(n) == {<<>>} \cup {<<n>>} \cup (IF n >= 2 THEN {<<n, 1>>} ELSE {}) \cup (IF n >= 3 THEN {<<2, 3>>} ELSE {})
